@@ -585,3 +585,159 @@ def group_trace(c):
                 c.ensure_eq('C02.group.accessor_rows_are_surface_records_in_order', c.val(xs[r]), acc)
             for a in ('y', 'z', 'L', 'M', 'N', 'opd', 'intensity'):
                 c.ensure('C02.group.accessor_rows_are_surface_records_in_order', getattr(sg, a).shape[0] == n - skip)
+
+
+# ------------------------------------------------------------------------------------------
+# edit-then-ask: after a parameter of a geometry / frame / surface is changed in place (what variables, solves, pickups and
+# tolerancing do), every kernel answers as a freshly constructed object with the new parameters does -- no stale state.
+# The fresh object's behaviour is what the contracts above prove.
+# ------------------------------------------------------------------------------------------
+def _same_answers(c, cid, edited, fresh, p, d):
+    r1, r2 = mk_rays(c, p, d), mk_rays(c, p, d)
+    t1, t2 = c.val(edited.distance(r1)), c.val(fresh.distance(r2))
+    c.ensure_eq(cid + '.distance', t1, t2)
+    h = mk_rays(c, (p[0], p[1], 0.0), d)
+    n1 = tuple(c.val(v) for v in edited.surface_normal(h))
+    n2 = tuple(c.val(v) for v in fresh.surface_normal(mk_rays(c, (p[0], p[1], 0.0), d)))
+    for i in range(3):
+        c.ensure_eq(cid + '.normal', n1[i], n2[i])
+    c.ensure_eq(cid + '.sag', c.val(edited.sag(c.arr(p[0]), c.arr(p[1]))), c.val(fresh.sag(c.arr(p[0]), c.arr(p[1]))))
+
+
+@contract('C02.requery.StandardGeometry', [ST + ':StandardGeometry.distance', ST + ':StandardGeometry.surface_normal', ST + ':StandardGeometry.sag'],
+          ['C02', 'C13'], bundle=True, max_paths=200)
+def requery_std(c):
+    geos = c.mod('optiland.geometries')
+    CoordinateSystem = c.mod('optiland.coordinate_system').CoordinateSystem
+    R1, k1 = c.real('R_before', 15, 60), c.real('k_before', -0.5, 0.5)
+    R2, k2 = c.real('R', 15, 60, positive=True), c.real('k_plus_1', 0.3, 1.7, positive=True) - 1
+    g = geos.StandardGeometry(CoordinateSystem(), R1, k1)
+    p = (c.real('px', -2, 2), c.real('py', -2, 2), c.real('pz', -6, -1))
+    d = (0.0, 0.0, 1.0)
+    w = mk_rays(c, p, d)
+    g.distance(w), g.surface_normal(mk_rays(c, (p[0], p[1], 0.0), d)), g.sag(c.arr(p[0]), c.arr(p[1]))   # warm any cache
+    g.radius, g.k = R2, k2
+    c.require(1 - (1 + k2) * (p[0] * p[0] + p[1] * p[1]) / (R2 * R2) > 0)
+    _same_answers(c, 'C02.requery.standard_geometry_answers_with_current_radius_and_conic', g, geos.StandardGeometry(CoordinateSystem(), R2, k2), p, d)
+
+
+@contract('C02.requery.EvenAsphere', [EA + ':EvenAsphere.sag', EA + ':EvenAsphere._surface_normal'], ['C02', 'C13'], bundle=True, max_paths=64)
+def requery_asphere(c):
+    geos = c.mod('optiland.geometries')
+    CoordinateSystem = c.mod('optiland.coordinate_system').CoordinateSystem
+    R, k = c.real('R', 15, 60, positive=True), c.real('k_plus_1', 0.3, 1.7, positive=True) - 1
+    old = [c.real('old%d' % i, -1e-3, 1e-3) for i in range(2)]
+    new = [c.real('C%d' % i, -1e-3, 1e-3) for i in range(2)]
+    g = geos.EvenAsphere(CoordinateSystem(), R + 1, k, 1e-10, 100, list(old))
+    x, y = c.real('x', -2, 2), c.real('y', -2, 2)
+    h = mk_rays(c, (x, y, 0.0), (0.0, 0.0, 1.0))
+    g.sag(c.arr(x), c.arr(y)), g.surface_normal(h)
+    g.c[0], g.c[1] = new[0], new[1]          # what AsphereCoeffVariable.update_value does
+    g.radius = R
+    f = geos.EvenAsphere(CoordinateSystem(), R, k, 1e-10, 100, list(new))
+    c.require(1 - (1 + k) * (x * x + y * y) / (R * R) > 0)
+    c.ensure_eq('C02.requery.even_asphere_answers_with_current_coefficients.sag', c.val(g.sag(c.arr(x), c.arr(y))), c.val(f.sag(c.arr(x), c.arr(y))))
+    n1 = tuple(c.val(v) for v in g.surface_normal(mk_rays(c, (x, y, 0.0), (0.0, 0.0, 1.0))))
+    n2 = tuple(c.val(v) for v in f.surface_normal(mk_rays(c, (x, y, 0.0), (0.0, 0.0, 1.0))))
+    for i in range(3):
+        c.ensure_eq('C02.requery.even_asphere_answers_with_current_coefficients.normal', n1[i], n2[i])
+
+
+def _requery_cs(mask):
+    @contract('C02.requery.CoordinateSystem.' + (mask or 'none'), [CS + ':CoordinateSystem.localize', CS + ':CoordinateSystem.globalize'],
+              ['C02', 'C13'], bundle=True, max_paths=64)
+    def rq(c):
+        CoordinateSystem = c.mod('optiland.coordinate_system').CoordinateSystem
+        cs = CoordinateSystem(x=c.real('x_before', -1, 1), y=c.real('y_before', -1, 1), z=c.real('z_before', 0, 5),
+                              rx=c.real('rx_before', -0.3, 0.3), ry=c.real('ry_before', -0.3, 0.3), rz=c.real('rz_before', -0.3, 0.3))
+        p, d = free_point(c), c.unit3('L', 'M', 'N')
+        w = mk_rays(c, p, d)
+        cs.localize(w), cs.globalize(w)
+        fresh = _cs(c, mask)
+        for a in ('x', 'y', 'z', 'rx', 'ry', 'rz'):       # what Tilt/Decenter/Thickness variables, solves and pickups do
+            setattr(cs, a, getattr(fresh, a))
+        r1, r2 = mk_rays(c, p, d), mk_rays(c, p, d)
+        cs.localize(r1), fresh.localize(r2)
+        for i in range(3):
+            c.ensure_eq('C02.requery.frame_localizes_with_current_decentre_and_tilt', pos_of(c, r1)[i], pos_of(c, r2)[i])
+            c.ensure_eq('C02.requery.frame_localizes_with_current_decentre_and_tilt', dir_of(c, r1)[i], dir_of(c, r2)[i])
+        cs.globalize(r1)
+        for i in range(3):
+            c.ensure_eq('C02.requery.frame_globalizes_with_current_decentre_and_tilt', pos_of(c, r1)[i], p[i])
+            c.ensure_eq('C02.requery.frame_globalizes_with_current_decentre_and_tilt', dir_of(c, r1)[i], d[i])
+    return rq
+
+
+for _m in ('', 'x', 'xy'):
+    _requery_cs(_m)
+
+
+@contract('C02.requery.Surface', [SS + ':Surface._trace_real', SS + ':Surface._interact'], ['C02', 'C13'], bundle=True, max_paths=64)
+def requery_surface(c):
+    """media and mirror flag are read at trace time: after they are replaced the surface refracts / reflects with the new ones"""
+    surfs, mats, geos = c.mod('optiland.surfaces'), c.mod('optiland.materials'), c.mod('optiland.geometries')
+    CoordinateSystem = c.mod('optiland.coordinate_system').CoordinateSystem
+    n1, n2 = c.real('n1', 1.0, 2.0, positive=True), c.real('n2', 1.0, 2.0, positive=True)
+    geo = geos.Plane(CoordinateSystem(z=c.real('zv', 1, 5, positive=True)))
+    surf = surfs.Surface(geo, mats.IdealMaterial(1.0, 0.0), mats.IdealMaterial(c.real('n_before', 1.0, 2.0, positive=True), 0.0))
+    p = (c.real('px', -1, 1), c.real('py', -1, 1), 0.0)
+    d = c.unit3('L', 'M', 'N', cone=0.8)
+    surf.trace(mk_rays(c, p, d))
+    surf.material_pre, surf.material_post = mats.IdealMaterial(n1, 0.0), mats.IdealMaterial(n2, 0.0)
+    c.require(1 - (n1 / n2) ** 2 * (1 - d[2] * d[2]) > 0)
+    r = mk_rays(c, p, d)
+    surf.trace(r)
+    D = dir_of(c, r)
+    c.ensure_eq('C02.requery.surface_refracts_with_current_media', n1 * d[0], n2 * D[0])
+    c.ensure_eq('C02.requery.surface_refracts_with_current_media', n1 * d[1], n2 * D[1])
+    surf.is_reflective = True
+    r = mk_rays(c, p, d)
+    surf.trace(r)
+    D = dir_of(c, r)
+    c.ensure_eq('C02.requery.surface_reflects_once_flagged_reflective', D[2], -d[2])
+    c.ensure_eq('C02.requery.surface_reflects_once_flagged_reflective', D[0], d[0])
+
+
+@contract('C02.requery.Optic.trace', ['optiland/optic.py:Optic.trace', 'optiland/optic.py:Optic.trace_generic', 'optiland/optic.py:Optic.set_radius',
+                                      'optiland/optic.py:Optic.set_thickness', 'optiland/optic.py:Optic.set_index', 'optiland/optic.py:Optic.set_conic'],
+          ['C02', 'C13'], numeric_only=True)
+def requery_optic(c):
+    """bounded (whole lens on the real code): after the prescription is edited through the public setters, a trace gives what a
+    lens built directly with the edited prescription gives -- per surface x, y, z, L, M, N, path and intensity"""
+    from .lens import arbitrary_lens
+    import numpy as _n
+
+    def build(prefix):
+        lens, v = arbitrary_lens(c, 4, stop=2, finite_object=False, prefix=prefix)
+        lens.add_wavelength(0.55, is_primary=True)
+        lens.set_aperture('EPD', c.real('epd', 1.0, 3.0, positive=True))
+        lens.set_field_type('angle')
+        lens.add_field(y=0.0)
+        lens.add_field(y=c.real('fy', 1.0, 6.0, positive=True))
+        return lens, v
+    a, va = build('')
+    b, vb = build('')                    # same draws: an identical second lens
+    c.require(abs(va['R'][1]) > 20 and abs(va['R'][2]) > 20 and abs(va['R'][3]) > 20)
+    c.require(va['z'][2] > 1 and va['z'][3] > va['z'][2] + 1)
+    Hy, Py = c.real('Hy', -1, 1), c.real('Py', -0.5, 0.5)
+    a.trace_generic(0.0, Hy, 0.0, Py, 0.55)
+    a.trace(0.0, Hy, 0.55, 3, 'hexapolar')
+    newR, newk, newn, newt = c.real('newR', 25, 80), c.real('newk', -0.8, 0.5), c.real('newn', 1.3, 1.9), c.real('newt', 0.5, 4.0)
+    for lens in (a, b):
+        lens.set_radius(newR, 1)
+        lens.set_conic(newk, 2)
+        lens.set_index(newn, 1)
+        lens.set_thickness(newt, 1)
+    # b was never traced before the edit; a fresh lens with the edited prescription has nothing to remember
+    for kind in ('generic', 'distribution'):
+        out = []
+        for lens in (a, b):
+            if kind == 'generic':
+                lens.trace_generic(0.0, Hy, 0.0, Py, 0.55)
+            else:
+                lens.trace(0.0, Hy, 0.55, 3, 'hexapolar')
+            sg = lens.surface_group
+            out.append([_n.array(getattr(sg, q), dtype=float) for q in ('x', 'y', 'z', 'L', 'M', 'N', 'opd', 'intensity')])
+        for q, ua, ub in zip(('x', 'y', 'z', 'L', 'M', 'N', 'opd', 'intensity'), out[0], out[1]):
+            c.ensure('C02.requery.trace_after_edits_equals_trace_of_a_lens_built_with_the_edited_prescription',
+                     ua.shape == ub.shape and bool(_n.allclose(ua, ub, rtol=0, atol=1e-12, equal_nan=True)), note='%s %s' % (kind, q))
